@@ -119,6 +119,8 @@ pub fn explore<M: Machine>(init: M, cfg: &ExploreCfg, rep: &mut Report, props: &
         let results: std::sync::Mutex<Vec<(usize, Chunk<M>)>> = std::sync::Mutex::new(Vec::new());
         let seen_ref = &seen;
         let frontier_ref = &frontier;
+        let abort = std::sync::atomic::AtomicBool::new(false);
+        let abort_ref = &abort;
         std::thread::scope(|s| {
             for _ in 0..nthreads.min(nchunks) {
                 s.spawn(|| loop {
@@ -137,7 +139,12 @@ pub fn explore<M: Machine>(init: M, cfg: &ExploreCfg, rep: &mut Report, props: &
                         panics: Vec::new(),
                     };
                     let mut ops = Vec::new();
-                    for (sid, m) in &frontier_ref[lo..hi] {
+                    for (n_done, (sid, m)) in frontier_ref[lo..hi].iter().enumerate() {
+                        // memory guard inside the level: candidate lists can outgrow the state cap many times over
+                        if n_done % 4096 == 0 && (abort_ref.load(std::sync::atomic::Ordering::Relaxed) || rss_gb() > max_rss_gb()) {
+                            abort_ref.store(true, std::sync::atomic::Ordering::Relaxed);
+                            break;
+                        }
                         ops.clear();
                         m.ops(&mut ops);
                         if reverse_ops() {
@@ -216,6 +223,11 @@ pub fn explore<M: Machine>(init: M, cfg: &ExploreCfg, rep: &mut Report, props: &
                     nextf.push((id, c.m));
                 }
             }
+        }
+        if abort.load(std::sync::atomic::Ordering::Relaxed) {
+            cap_hit = true;
+            frontier = nextf;
+            break;
         }
         depth += 1;
         per_level.push(nextf.len() as u64);
